@@ -134,6 +134,18 @@ func main() {
 	overlay := map[string]string{}
 	stats := map[string]int{}
 	sort.Slice(pkgs, func(i, j int) bool { return pkgs[i].PkgPath < pkgs[j].PkgPath })
+	// Whole-program pre-pass: a package-level variable that nothing ever assigns (outside its
+	// own declaration and init functions) is a constant table: it cannot race or carry state from
+	// one request / VM to the next, and instrumenting its reads would only cost time.
+	for _, p := range pkgs {
+		if len(p.Errors) > 0 {
+			continue
+		}
+		for _, f := range p.Syntax {
+			collectWritten(p, f)
+		}
+	}
+	stats["pkgvars_ever_written"] = len(everWritten)
 	for _, p := range pkgs {
 		if len(p.Errors) > 0 {
 			fmt.Fprintln(os.Stderr, "govis: package errors in", p.PkgPath, p.Errors)
@@ -319,9 +331,107 @@ func isSyncType(t types.Type) bool {
 	return false
 }
 
+var everWritten = map[types.Object]bool{}
+
+// rootVar returns the package-level variable an lvalue expression is rooted at (x, x.f, x[i].g,
+// pkg.X.f ...), or nil.
+func rootVar(info *types.Info, e ast.Expr) types.Object {
+	for {
+		switch x := e.(type) {
+		case *ast.ParenExpr:
+			e = x.X
+		case *ast.IndexExpr:
+			e = x.X
+		case *ast.StarExpr:
+			e = x.X
+		case *ast.SliceExpr:
+			e = x.X
+		case *ast.SelectorExpr:
+			if id, ok := x.X.(*ast.Ident); ok {
+				if _, isPkg := info.Uses[id].(*types.PkgName); isPkg {
+					e = x.Sel
+					continue
+				}
+			}
+			e = x.X
+		case *ast.Ident:
+			if v, ok := info.Uses[x].(*types.Var); ok && !v.IsField() && v.Pkg() != nil && v.Parent() == v.Pkg().Scope() {
+				return v
+			}
+			return nil
+		default:
+			return nil
+		}
+	}
+}
+
+func collectWritten(p *packages.Package, f *ast.File) {
+	info := p.TypesInfo
+	for _, d := range f.Decls {
+		fd, ok := d.(*ast.FuncDecl)
+		if !ok || fd.Body == nil || (fd.Recv == nil && fd.Name.Name == "init") {
+			continue
+		}
+		mark := func(e ast.Expr) {
+			if o := rootVar(info, e); o != nil {
+				everWritten[o] = true
+			}
+		}
+		ast.Inspect(fd.Body, func(n ast.Node) bool {
+			switch x := n.(type) {
+			case *ast.AssignStmt:
+				if x.Tok != token.DEFINE {
+					for _, l := range x.Lhs {
+						mark(l)
+					}
+				}
+			case *ast.IncDecStmt:
+				mark(x.X)
+			case *ast.RangeStmt:
+				if x.Tok == token.ASSIGN {
+					if x.Key != nil {
+						mark(x.Key)
+					}
+					if x.Value != nil {
+						mark(x.Value)
+					}
+				}
+			case *ast.UnaryExpr:
+				if x.Op == token.AND {
+					mark(x.X) // address taken: may be written through the pointer
+				}
+			case *ast.CallExpr:
+				if id, ok := x.Fun.(*ast.Ident); ok && len(x.Args) > 0 && (id.Name == "delete" || id.Name == "clear") {
+					if _, isBuiltin := info.Uses[id].(*types.Builtin); isBuiltin {
+						mark(x.Args[0])
+					}
+				}
+				// a method with pointer receiver called on an addressable struct variable may write it
+				if sel, ok := x.Fun.(*ast.SelectorExpr); ok {
+					if s := info.Selections[sel]; s != nil && s.Kind() == types.MethodVal {
+						if sig, ok := s.Obj().Type().(*types.Signature); ok && sig.Recv() != nil {
+							if _, isPtr := sig.Recv().Type().(*types.Pointer); isPtr {
+								if tv, ok := info.Types[sel.X]; ok {
+									if _, already := tv.Type.Underlying().(*types.Pointer); !already {
+										mark(sel.X)
+									}
+								}
+							}
+						}
+					}
+				}
+			}
+			return true
+		})
+	}
+}
+
 func (rw *rewriter) pkgVarObj(o types.Object) bool {
 	v, ok := o.(*types.Var)
 	if !ok || v.IsField() || v.Pkg() == nil {
+		return false
+	}
+	if !everWritten[o] {
 		return false
 	}
 	if v.Parent() != v.Pkg().Scope() {
